@@ -128,3 +128,50 @@ def install_all():
     install_make_query()
     install_attributes()
     install_reconstruct()
+
+
+# -- C04: _DBCreator._increment_featuretype_autoid ---------------------------
+# (not part of install_all: owned by C04/C05, which install it explicitly)
+import weakref
+
+_AUTOID_RETURNED = weakref.WeakKeyDictionary()   # creator object (= one import) -> keys handed out so far
+
+
+def autoid_before(self, key):
+    try:
+        return dict.get(self._autoincrements, key, 0)
+    except Exception:
+        return None
+
+
+def autoid_counter_advances_by_one_and_key_is_fresh(self, key, result, OLD):
+    EVALS["autoid"] += 1
+    try:
+        before = OLD.before
+        after = dict.get(self._autoincrements, key, 0)
+        if before is None or after != before + 1:
+            _record("_increment_featuretype_autoid", "counter of base %r went %r -> %r (must advance by exactly one)"
+                    % (key, before, after), key=key, result=result)
+        elif result != "%s_%s" % (key, after):
+            _record("_increment_featuretype_autoid", "returned %r, counter of base %r is %r" % (result, key, after),
+                    key=key, result=result)
+        seen = _AUTOID_RETURNED.setdefault(self, set())
+        if result in seen:
+            _record("_increment_featuretype_autoid", "key %r handed out twice within one import" % (result,),
+                    key=key, result=result)
+        seen.add(result)
+    except Exception as e:  # pragma: no cover
+        _record("_increment_featuretype_autoid", "contract could not be evaluated: %r" % (e,))
+    return True
+
+
+def install_autoid():
+    if "autoid" in _installed:
+        return
+    _installed.add("autoid")
+    from gffutils import create as C
+
+    f = C._DBCreator._increment_featuretype_autoid
+    f = icontract.ensure(autoid_counter_advances_by_one_and_key_is_fresh, error=ContractBroken)(f)
+    f = icontract.snapshot(autoid_before, name="before")(f)
+    C._DBCreator._increment_featuretype_autoid = f
